@@ -197,6 +197,38 @@ ASPECT = {"C05": ["classical_qsvd_full", "classical_qsvd"], "C06": ["qr_qua"], "
           "C03": ["NewtonSchulzPseudoinverse.compute", "HigherOrderNewtonSchulzPseudoinverse.compute"], "C01": ["quat_hermitian"]}
 
 
+NEARLY = {"C05": ["classical_qsvd_full", "classical_qsvd"], "C06": ["qr_qua"], "C07": ["quaternion_lu", "quaternion_lu.mode2"],
+          "C09": ["hessenbergize"], "C10": ["quaternion_schur", "quaternion_schur_unified"], "C11": ["rank", "det"],
+          "C15": ["matrix_norm.2", "spectral_norm_2", "matrix_norm.1", "induced_matrix_norm_inf"], "C19": ["power_iteration", "power_iteration_nonhermitian"],
+          "C01": ["quat_hermitian"], "C12": ["rand_qsvd"], "C03": ["NewtonSchulzPseudoinverse.compute"]}
+
+
+def build_nearly(name, n, rng):
+    """name@nh / @nt / @nu: the first matrix argument replaced by a square matrix that is NEARLY Hermitian / upper triangular /
+    unitary (per-entry relative or absolute defect 1e-6 .. 1e-7: inside the tolerance of np.allclose-style structure tests,
+    far above rounding).  Such input is a general matrix and must be treated as one."""
+    base, how = name.split("@")
+    jn, fn, a, kw = build(base, max(n, 3), rng)
+    a = list(a)
+    k = next(i for i, x in enumerate(a) if isinstance(x, np.ndarray) and x.dtype == np.quaternion and x.ndim == 2)
+    G = rng.standard_normal((n, n, 4))
+    if how == "nh":
+        H = G + oherm(G) + 4.0 * np.eye(n)[:, :, None] * [1.0, 0, 0, 0]
+        M = H * (1.0 + 1e-6 * rng.standard_normal((n, n, 4)))
+    elif how == "nt":
+        M = np.triu(G.transpose(2, 0, 1)).transpose(1, 2, 0) + 3.0 * np.eye(n)[:, :, None] * [1.0, 0, 0, 0]
+        M = M + 1e-7 * np.tril(rng.standard_normal((n, n, 4)).transpose(2, 0, 1), -1).transpose(1, 2, 0)
+    else:
+        Qm, _ = np.linalg.qr(rng.standard_normal((n, n)))
+        M = np.zeros((n, n, 4))
+        M[..., 0] = Qm
+        M = M + 1e-7 * rng.standard_normal((n, n, 4))
+    a[k] = q_from_float(M)
+    if base in ("classical_qsvd", "rand_qsvd") and len(a) > k + 1:
+        a[k + 1] = min(int(a[k + 1]), n)
+    return jn, fn, tuple(a), kw
+
+
 def build_aspect(name, n, rng):
     """the routine's first matrix argument replaced by a STRONGLY rectangular one: name@ts -> (4n+3) x n, name@sf -> n x (4n+3)"""
     base, how = name.split("@")
@@ -220,7 +252,10 @@ def _job(args):
         return [(o.prop, o.fn, o.cls, dict(o.detail, routine=name, n=n), o.events) for o in recs]
     if name.startswith("c14:"):
         return _c14_job(name[4:], n, seed)
-    jn, fn, a, kw = build_aspect(name, n, rng) if "@" in name else build(name, n, rng)
+    if "@" in name:
+        jn, fn, a, kw = (build_nearly if name.split("@")[1] in ("nh", "nt", "nu") else build_aspect)(name, n, rng)
+    else:
+        jn, fn, a, kw = build(name, n, rng)
     judge = {path.split(".")[-1] if "." not in path else path: j for _, path, j in J.REGISTRY}
     jf = judge.get(jn) or judge.get(jn.split(".")[-1]) or {p.split(".")[-1]: j for _, p, j in J.REGISTRY}[jn.split(".")[-1]]
     pre = tuple(x.copy() if isinstance(x, np.ndarray) else x for x in a)
@@ -283,6 +318,12 @@ def stage(ctx, quick=False):
         for how in ("ts", "sf"):
             for n in ((3, 5) if quick else (3, 5, 8, 13)):
                 jobs.append((nm + "@" + how, n, ctx.seed * 1013 + 29 * n + len(jobs)))
+    for nm in NEARLY.get(ctx.pid, []):
+        for how in ("nh", "nt", "nu"):
+            for n in ((5,) if quick else (3, 5, 8)):
+                if n > CAP.get(nm, 1000):
+                    continue
+                jobs.append((nm + "@" + how, n, ctx.seed * 1013 + 31 * n + len(jobs)))
     outs = par.pmap(_job, jobs, chunk=1)
     rec = S.Rec()
     ncalls = 0
